@@ -108,3 +108,7 @@ mod tests {
         // we have access to an ipv6 network.
     }
 }
+
+#[cfg(all(test, pendulum_project_ntpd_rs_verif))]
+#[path = "/verif/harness/ntp-proto/hook_identifiers.rs"]
+mod verif_hook;
